@@ -2248,8 +2248,15 @@ def _transport_conditional_counterfactual_query_line_4(
     )
     # The input outcome and condition variables and their values, to be used
     # to evaluate the return expression.
+    # A condition whose ancestral component contains no outcome is not part of $\mathbf{D_{\ast}}$: it is
+    # independent of the outcomes, does not appear in the expression and is not needed to evaluate it.
+    expression_variables = result_expression.get_variables()
     result_event: list[tuple[Variable, Intervention]] = [
-        (variable.get_base(), value) for variable, value in itt.chain(outcomes, conditions)
+        (variable.get_base(), value) for variable, value in outcomes
+    ] + [
+        (variable.get_base(), value)
+        for variable, value in conditions
+        if variable.get_base() in expression_variables
     ]
     _validate_transport_conditional_counterfactual_query_line_4_output(
         simplified_event=simplified_event,
